@@ -77,7 +77,7 @@ def run(ctx):
             elif f["same_len"] != "1":
                 ctx.count("canonicalised-prefix")      # a prefix without effect dropped, or the default (BP+n) prefix made explicit: same text, same meaning
         if fam:
-            ctx.report(["py", fam, mn], f"`{text}` (from {l.split()[0]}): {a[:200]}", {"case": "reasm " + l, "answer": a[:400]})
+            ctx.report(["py", fam], f"{mn} `{text}` (from {l.split()[0]}): {a[:200]}", {"case": "reasm " + l, "answer": a[:400]})
     # addressing mode written in the text vs mode the decoder shows for the emitted bytes
     srcs, meta = [], []
     for tpl in SINGLE:
@@ -99,7 +99,7 @@ def run(ctx):
         shown = r
         want = {"N": "(N:16)", "BP_N": "(BP_N:16)", "PX_N": "(PX_N:16)", "PY_N": "(PY_N:16)", "BP_PX": "(BP_PX)", "BP_PY": "(BP_PY)"}[m]
         if want not in shown:
-            ctx.report(["py", "assembler_emits_encoding_with_other_addressing_mode", m], f"`{tpl.format(MODES[m])}` assembles to {hx}, which the decoder renders as {shown}", {"source": tpl.format(MODES[m]), "bytes": hx, "render": shown})
+            ctx.report(["py", "assembler_emits_encoding_with_other_addressing_mode"], f"mode {m}: `{tpl.format(MODES[m])}` assembles to {hx}, which the decoder renders as {shown}", {"source": tpl.format(MODES[m]), "bytes": hx, "render": shown})
         else:
             ctx.nontrivial.add(tpl + m)
     ctx.samples = [{"case": lines[0], "answer": out[0][:300]}]
